@@ -3,7 +3,7 @@ import random
 from vlib import tlc, core
 from drivers.funcsignal_drv import FuncSignalDriver
 
-OPS = ['New', 'Read', 'Shift', 'IMul', 'IDiv', 'Filter', 'SetBuffers', 'Resample', 'AssignTimes', 'Copy', 'Mul',
+OPS = ['New', 'Read', 'Shift', 'IMul', 'IDiv', 'Filter', 'SetBuffers', 'SetBuffersFail', 'Resample', 'AssignTimes', 'Copy', 'Mul',
        'WithTimes', 'Add']
 FINISH = dict(rule='behaviours of FuncSignal.tla (all interleavings of value reads with shift/scale/filter/set_buffers/'
                    'resample/with_times/add/copy/times assignment) executed on FunctionSignal and on FullThermalNoise and '
@@ -21,7 +21,7 @@ def run(r):
     behs, nn, ne, nc = tlc.graph_cover(g.dot, rng=random.Random(r.seed))
     r.extra['graph_cover'] = {'nodes': nn, 'edges': ne, 'edges_replayed': nc, 'behaviours': len(behs)}
     r.replay(drv, behs, 'FuncSignal', 'graph', parallel=16, factory=FuncSignalDriver)
-    n = 6000 if thorough else 600
+    n = 6000 if thorough else 400
     s = tlc.simulate('FuncSignalMC', 'FuncSignal_sim.cfg', 'C06/sim', num=n, depth=16, seed=r.seed + 6)
     if s.violated:
         raise tlc.TLCError('simulation config violates %s' % s.violated)
@@ -38,7 +38,7 @@ def run(r):
     warnings.filterwarnings('ignore')
     for cfg in ('LazyObj_tracer.cfg', 'LazyObj_path.cfg', 'LazyObj_upath.cfg'):
         r.model_check('LazyObjMC', cfg)
-    nl = 1500 if thorough else 200
+    nl = 1500 if thorough else 120
     for cfg, target, kinds in (('LazyObj_tracer.cfg', 'tracer', ['specialized', 'uniform', 'layered', 'basic']),
                                ('LazyObj_path.cfg', 'path', ['specialized', 'basic']),
                                ('LazyObj_upath.cfg', 'path', ['uniform'])):
